@@ -73,6 +73,11 @@ type Case struct {
 	// Headerless: the stream starts at the first data block (a scan resumed
 	// at FullyScannedBytes).
 	Headerless bool
+	// BadFirst: the first fileblock is readable but rejected: 1 the header
+	// requires a feature the reader does not know, 2 the block has an unknown
+	// type. The scan ends with an error at once; Close and the clean-up are
+	// what this history is about.
+	BadFirst int
 }
 
 var (
@@ -215,7 +220,65 @@ func trunc(s string, n int) string {
 	return s
 }
 
+// runBadFirst: the first block is rejected, then the drawn calls follow.
+func runBadFirst(c Case) error {
+	f := c.file()
+	if c.BadFirst == 1 {
+		f.Header.Required = append(f.Header.Required, "NoSuchFeature")
+	}
+	data := f.Encode().Data
+	if c.BadFirst == 2 {
+		h := pbfgen.FrameBlob("OSMFoo", pbfgen.EncodeBlob(f.Header.Encode(), pbfgen.BlobOpt{}), nil)
+		data = append(h, data[f.Encode().Header.End:]...)
+	}
+	ctx, cancel := context.WithCancel(context.Background())
+	defer cancel()
+	r := &countingReader{data: data, loopFrom: -1, chunk: c.Chunk}
+	s := osmpbf.New(ctx, r, c.Procs)
+	if c.HeaderFirst {
+		if _, err := s.Header(); err == nil {
+			return harness.Failf("C07/bad-first-block", "Header() accepted a first block that must be rejected (variant %d)", c.BadFirst)
+		}
+	}
+	if s.Scan() {
+		return harness.Failf("C07/bad-first-block", "Scan returned true although the first block must be rejected (variant %d)", c.BadFirst)
+	}
+	first := s.Err()
+	if first == nil {
+		return harness.Failf("C07/bad-first-block", "the first block must be rejected (variant %d) but Err() is nil", c.BadFirst)
+	}
+	switch c.Stop {
+	case stopCancelSync, stopCancelAsync:
+		cancel()
+	}
+	if err := s.Close(); err != nil {
+		return harness.Failf("C07/close-error", "Close returned %v", err)
+	}
+	for i, op := range c.After {
+		switch op {
+		case opScan:
+			if s.Scan() {
+				return harness.Failf("C07/scan-after-stop", "Scan #%d after the rejected first block returned true", i)
+			}
+		case opErr:
+			if got := s.Err(); got == nil || got.Error() != first.Error() {
+				return harness.Failf("C07/err-precedence", "Err() = %v after Close, the error recorded earlier was %v", got, first)
+			}
+		case opClose:
+			s.Close()
+		}
+	}
+	if g := waitNoGoroutines(6 * time.Second); g != "" {
+		return harness.Failf("C07/goroutine-leak", "goroutines still in osmpbf frames 6s after a scan whose first block was rejected:\n%s", trunc(g, 4000))
+	}
+	last.classes = append(last.classes, "first-block-rejected")
+	return nil
+}
+
 func run(c Case) error {
+	if c.BadFirst != 0 {
+		return runBadFirst(c)
+	}
 	f := c.file()
 	enc := f.Encode()
 	data := enc.Data
@@ -542,7 +605,7 @@ func run(c Case) error {
 func TestPBFStop(t *testing.T) {
 	harness.Run(t, harness.Spec[Case]{
 		Name: "pbf-stop", N: 200,
-		Rule: "call histories drawn by rapid and executed against osmpbf.Scanner on a 60..500-block file behind a counting, chunking reader (20% endless input, 15% truncated input whose reader ends with io.EOF, a transport error, or a transport error wrapping io.EOF; a quarter of the streams start at the first data block as a resumed scan does, a third of those stopped before the first Scan): optional Header, k successful Scans (k from 0 to beyond the end), then Close / cancel from the scanning goroutine / cancel from a second goroutine after a drawn delay / nothing, then a drawn sequence of Scan, Err, Close, FullyScannedBytes, Header calls; procs in {1,2,4,11,32}; oracle = model of the statement (objects before the stop follow the file; every Scan after the stop is false; Err = earlier error > scanner-closed / context error (either when both apply) > nil only after a complete scan), bytes pulled from the reader bounded by the last delivered block + (3*procs+30) blocks of read-ahead and no read after Close returned, no goroutine in osmpbf frames 3 s after the stop, no call blocked for 20 s, zero race reports (-race, halt_on_error); non-trivial = the stop lands strictly between the first object and the end of input",
+		Rule: "call histories drawn by rapid and executed against osmpbf.Scanner on a 60..500-block file behind a counting, chunking reader (20% endless input, 15% truncated input whose reader ends with io.EOF, a transport error, or a transport error wrapping io.EOF; a quarter of the streams start at the first data block as a resumed scan does, a third of those stopped before the first Scan): optional Header, k successful Scans (k from 0 to beyond the end), then Close / cancel from the scanning goroutine / cancel from a second goroutine after a drawn delay / nothing, then a drawn sequence of Scan, Err, Close, FullyScannedBytes, Header calls; one history in ten starts on a first fileblock that is readable but rejected (unsupported required feature, unknown block type) and then closes; procs in {1,2,4,11,32}; oracle = model of the statement (objects before the stop follow the file; every Scan after the stop is false; Err = earlier error > scanner-closed / context error (either when both apply) > nil only after a complete scan), bytes pulled from the reader bounded by the last delivered block + (3*procs+30) blocks of read-ahead and no read after Close returned, no goroutine in osmpbf frames 3 s after the stop, no call blocked for 20 s, zero race reports (-race, halt_on_error); non-trivial = the stop lands strictly between the first object and the end of input",
 		Gen: func(t *rapid.T) Case {
 			c := Case{}
 			nt := rapid.IntRange(1, 5).Draw(t, "ntemplates")
@@ -575,6 +638,11 @@ func TestPBFStop(t *testing.T) {
 				c.TruncBytes = rapid.IntRange(0, 1000).Draw(t, "truncBytes")
 				c.ReadErr = rapid.IntRange(0, 2).Draw(t, "readErr")
 			}
+			if rapid.IntRange(0, 9).Draw(t, "badFirst") == 0 {
+				c.BadFirst = rapid.IntRange(1, 2).Draw(t, "badFirstKind")
+				c.Endless, c.TruncateAt = false, 0
+				return c
+			}
 			if rapid.IntRange(0, 3).Draw(t, "headerless") == 0 {
 				c.Headerless = true
 				if rapid.IntRange(0, 2).Draw(t, "beforeFirstScan") == 0 {
@@ -589,7 +657,7 @@ func TestPBFStop(t *testing.T) {
 			return map[string]any{"blocks": c.NBlocks, "templates": len(c.Templates), "procs": c.Procs, "header_first": c.HeaderFirst, "k": c.K,
 				"stop": []string{"close", "cancel-sync", "cancel-async", "none"}[c.Stop], "async_delay": c.AsyncDelay, "after_ops": c.After, "chunk": c.Chunk, "endless": c.Endless, "truncate_at": c.TruncateAt, "read_err": c.ReadErr, "headerless": c.Headerless}
 		},
-		Floors:   map[string]float64{"stop-mid-scan": 0.33, "cancel-async": 0.1, "promptness-bound-effective": 0.3},
+		Floors:   map[string]float64{"stop-mid-scan": 0.3, "cancel-async": 0.1, "promptness-bound-effective": 0.27},
 		Inflight: true,
 	})
 }
